@@ -1,5 +1,5 @@
 (* C02 — facts about the regenerated function registry (Gen/FuncTable.v), re-proved on every run: finite, complete checks. *)
-From QT Require Import Expr.Spec Expr.EvalThm Expr.Deps Expr.FuncInfo Gen.FuncTable.
+From QT Require Import Expr.Spec Expr.EvalThm Expr.OrderThm Expr.Deps Expr.FuncInfo Gen.FuncTable C02.Run.
 Open Scope Z_scope.
 Open Scope string_scope.
 Open Scope list_scope.
@@ -58,3 +58,7 @@ Proof. vm_compute. reflexivity. Qed.
 Theorem eval_matches_reference_gen :
   order_laws -> forall c e, nan_sensitive_free c e = true -> eval sgn_int_first c e = sem c e.
 Proof. intros L c e H. rewrite sgn_fixed. apply eval_matches_reference; assumption. Qed.
+
+(* the canonicity test the case files apply to every input is the premise of the headline theorem *)
+Lemma run_canonical_same : forall c e, run_ctx_canonical c && run_lits_canonical e = ctx_canonical c && lits_canonical e.
+Proof. reflexivity. Qed.
